@@ -7,7 +7,7 @@ META = {
     "technique": "Lean 4 theorems on the checked JSON parser model (parametric in the string/number sub-routines, instantiated with their models) + correspondence with JSON::Parse + RFC denotation oracle",
     "level": "proof",
     "design_ref": "DESIGN.md §6 C06",
-    "text": "Kernel-checked: the parser model returns for every input; duplicate keys keep the first position and the last value (objInsert laws); string bodies with \\u escapes and surrogate pairs decode to the UTF encoding of the named code point (C20 theorems); integers that fit are exact (C09 theorems). The full statement parse(print d) = denote d is assembled from these only for the fragments listed in evidence.open_statements; on every run generated RFC documents (full Unicode range, all escape forms, numerals, whitespace, duplicate keys) in UTF-8/16/32 are parsed by the real code and compared with the denotation computed independently (reals within one ulp) and with the Lean model.",
+    "text": "Kernel-checked: parse(print d) = denote d for every well-formed RFC 8259 document (parse_print / parse_print_concrete): any nesting, whitespace at every legal position, duplicate keys keep the first position and the last value (objInsert laws), given per-token contracts; the contracts are proved for every RFC string body (token_string_body: plain units, short escapes, \\uXXXX, surrogate pairs decode to the UTF encoding of the named code point in every width, C20 theorems) and for every RFC numeral (token_real: by the relocation theorem strToNum_sim the scan embedded in a document returns what the standalone run on the numeral returns; integers that fit are exact, C09; the accuracy of real results is C09's closed one-ulp theorem). On every run generated RFC documents (full Unicode range, all escape forms, numerals, whitespace, duplicate keys, names whose raw hash is 0, wide alias units) in UTF-8/16/32 are parsed by the real code - also through the three-argument entry point with a long-lived scratch stream - and compared with the denotation computed independently (reals within one ulp) and with the Lean model.",
     "note": "Trusted: Lean kernel; axioms ⊆ {propext, Quot.sound, Classical.choice}; the correspondence harness; Python's float() as correctly rounded reference for non-integer numerals (one-ulp tolerance as the property states).",
 }
 
